@@ -3,9 +3,51 @@
 import json, subprocess, sys
 ALL = ["C%02d" % i for i in range(1, 19)]
 CHECKS = {
- "C01": dict(text="Generated operation histories (proptest, shrunk as one value) compared step by step with an abstract tree model written from the rustdoc; exploration, not proof: every result, listing order, metadata, length and byte is compared after every step and in full dumps.",
-             note="Trusted: the harness model (model.rs, names.rs with a Perl-derived Unicode<=3.0 upper-casing table), the in-memory backend. Held on everything explored.",
-             technique="model-based property testing over generated operation histories (proptest), reference-model oracle", ref="4 C01"),
+ "C01": dict(ref="4 C01", technique="model-based property testing over generated operation histories (proptest), reference-model oracle",
+   text="Generated operation histories (proptest, shrunk as one value) are run on the library and on an abstract tree model written from the rustdoc; every result, error kind, listing order, metadata value, length and byte is compared after every step, in full dumps and after reopening. Exploration: held on everything explored, no proof of absence.",
+   note="Trusted: the harness model (model.rs), the name oracle (names.rs, upper-casing table extracted from Perl's Unicode database, Unicode<=3.0 mappings only), the in-memory backend."),
+ "C02": dict(ref="4 C02", technique="model-based property testing with snapshot-and-reopen oracle at every operation boundary",
+   text="Same histories with stream-handle operations; at every operation boundary without unflushed handle data the raw backend bytes (no flush, no into_inner) are reopened in permissive and strict mode and compared with the model, and regularly the reopened object replaces the live one so that continuing on it is judged by the model too.",
+   note="Trusted: the harness's tracking of 'possibly dirty' handles; model as in C01."),
+ "C03": dict(ref="4 C03 and 3.3", technique="property-based testing with an independent format checker as oracle (invariant over the history)",
+   text="An MS-CFB parser/checker written from the specification (no code shared with the crate) judges the raw byte image after every operation of generated histories, including a large-file profile reaching several FAT sectors, DIFAT sectors, several directory and MiniFAT sectors.",
+   note="Trusted: refparse.rs (core rules R01-R31 transcribe the clauses of the statement; advisory rules never fail); validated against the synthesizer's images and negative images."),
+ "C04": dict(ref="4 C04 and 3.4", technique="property-based round-trip: independent writer (layout synthesizer) -> library reader, then model-based histories on the foreign file",
+   text="An independent writer encodes generated logical contents in generated legal physical layouts (permuted/fragmented sectors and mini sectors, permuted directory slots with gaps, balanced red-black trees, DIFAT sectors); the library must open them in both modes and expose exactly the encoded content, and short mutation histories on them are judged by the C01-C03 oracles.",
+   note="Trusted: synth.rs and refparse.rs (both harness code, cross-checking each other); 'spec-valid' is MS-CFB as read by the harness author."),
+ "C06": dict(ref="4 C06", technique="model-based property testing of call sequences against a Vec<u8>+cursor model, repeated across all buffer-size/version configurations",
+   text="Generated call sequences on one stream handle are executed under 10 max_buffer_size settings x 2 versions and every return value is compared with a byte-vector-and-cursor model that does not depend on the configuration.",
+   note="Trusted: the cursor model in engine_handles.rs; read may return any non-empty prefix."),
+ "C07": dict(ref="4 C07", technique="model-based property testing of interleaved handle and structural operations (stateful generation)",
+   text="Histories interleave operations through several open handles with creations, removals and resizes of other entries; the whole tree, all metadata and all stream contents are compared with a model in which a handle operation touches only its own stream, plus the independent checker for damage outside the API's reach.",
+   note="Trusted: model; the generator never removes/overwrites a stream with an open handle and never opens two handles on one stream."),
+ "C08": dict(ref="4 C08", technique="property-based testing with a zero-fill oracle and a physical 'ever non-zero' shadow bitmap to target reuse",
+   text="Histories of writes, shrinks, grows and removals; after each growing set_len the gained range must read zero through the same handle, a fresh handle and after reopening; non-trivial cases are those where the gained range physically overlaps bytes that were non-zero earlier.",
+   note="Trusted: independent parser for the physical mapping; growth via write() is covered by C06."),
+ "C09": dict(ref="4 C09 and 3.2", technique="property-based testing with independent name validator, UTF-16 shortlex comparator and path normaliser as oracles",
+   text="Unicode names from a closed alphabet (incl. exceptional upper-casing and supplementary-plane characters), case variants, path spellings and invalid names are exercised in random insert/remove orders; validity, case-insensitive lookup, listing order and path normalisation are judged by oracles that share nothing with the crate.",
+   note="Trusted: names.rs; alphabet restricted to characters whose simple upper-casing is stable from Unicode 3.0 to 14."),
+ "C10": dict(ref="4 C10", technique="model-based property testing with byte-identity oracle on every refused call",
+   text="Histories with about half of the calls aimed at refusals; every call that returns NotFound/AlreadyExists/InvalidInput must leave the backend bytes identical and the model unchanged, so all later results are compared as if the call had not been made.",
+   note="Trusted: model and refusal sets of DESIGN.md 3.1."),
+ "C12": dict(ref="4 C12", cat="fault_enumeration", technique="exhaustive single-fault enumeration (plus pairs) over generated read workloads, differential against the fault-free run and the true content",
+   text="For generated read-only workloads every position k of the underlying read/seek call sequence gets a run with that call failing (all k, plus pairs); each API call must return Err only when a fault fired during it, otherwise its fault-free value, and bytes delivered must equal the true content at the position the handle reports, also on retries.",
+   note="Exhaustive over single fault positions per workload; workloads and pairs are sampled. Trusted: model, synthesizer (images), fault backend."),
+ "C13": dict(ref="4 C13", cat="fault_enumeration", technique="exhaustive single-fault enumeration over generated mutating workloads with read-back oracle after every successful flush",
+   text="For generated mutating workloads every position k of the underlying write/seek/flush sequence gets a run with that call failing; the API call in progress must return Err, nothing may panic or hang afterwards, and whenever Stream::flush returns Ok (first try or retry) a fresh handle must read back every byte accepted by earlier writes on that handle.",
+   note="Exhaustive over single fault positions per workload; workloads are sampled; faults inside Drop are exempt as documented."),
+ "C15": dict(ref="4 C15", technique="metamorphic property testing: repeated net-zero cycles, file size must not change from repetition 2 on",
+   text="Prefix histories followed by 7 repetitions of generated cycles that the model proves net-zero; the image length after repetition 2 must equal the length after every later repetition. Growth that settles because a never-shrunk container chain first grew in repetition 2 is a listed known finding; growth that goes on is a violation.",
+   note="Known findings listed in known_findings.txt (C15). Trusted: model for the net-zero test, parser for chain lengths."),
+ "C16": dict(ref="4 C16", technique="differential property testing (strict vs permissive) on mutated images, plus deviation injectors with the undamaged model as oracle",
+   text="Direction A: mutated valid images that strict open accepts must be accepted by permissive open with an equal dump. Direction B: each of 23 documented deviations, injected singly and combined at generated places into library-written and synthesized images, must be accepted by permissive open with the undamaged content and rejected by strict open.",
+   note="Known finding: zero-padded DIFAT combined with an oversized header FAT count (excluded by construction, confirmed by two saved cases)."),
+ "C17": dict(ref="4 C17", technique="model-based property testing with an exact integer FILETIME model",
+   text="Histories dominated by metadata setters with extreme and random CLSIDs, state words and SystemTimes on all object kinds across several directory sectors and reopen; results compared with an exact saturating integer model.",
+   note="touch on the root: either documented or coded behaviour accepted."),
+ "C18": dict(ref="4 C18", technique="differential property testing across runs, backends (memory, std::fs::File, short-count/Interrupted backends), buffer sizes and versions",
+   text="Each generated history is executed 46+ times: both versions x 5 buffer sizes x {memory twice, real file, choppy backends}; all results are compared with the model in every run and within a (version, buffer size) class the final images must be byte-identical.",
+   note="Interrupted never injected twice in a row; storage timestamps pinned through the public setters."),
 }
 def main():
     repo_commits = subprocess.run(["git","-C","/repo","log","--format=%h %s"],capture_output=True,text=True).stdout.splitlines()
